@@ -72,6 +72,16 @@ Definition kMember := 21. Definition kDoc := 22. Definition kParam := 23.
 Definition kHolder := 24.
 (* a query parameter of a REST method (EnterQuery_var): own context only *)
 Definition kQuery := 25.
+(* round 3, second pass: a typed path parameter "{id <: int}" of a REST path (EnterHttp_path_var_with_type: own context
+   only; walked after the path's attributes, before its body); the collector ".. * <- *:" (EnterCollector: own context,
+   no attributes, a statement scope left by popScope, End NOT overwritten) and its statements (the four
+   EnterCollector_*_stmt handlers: own context; ExitCollector_stmts: the attributes, when the statement is left); a
+   subscription "Pub -> Event [..]:" (EnterSubscribe: own context, then the attributes, then the SAME rule's context once
+   more for the call statement it appends to the publisher's event - kSubCall, handed to the model as the first node of
+   the subscription's body: it is walked behind the attributes and is no statement of the scope -, then a statement
+   scope; End not overwritten) *)
+Definition kPathVar := 26. Definition kCollector := 27. Definition kCollStmt := 28.
+Definition kSubscribe := 29. Definition kSubCall := 30.
 
 Definition mem (k : N) (l : list N) : bool := existsb (N.eqb k) l.
 
@@ -81,14 +91,14 @@ Definition has_own (k : N) : bool := negb (mem k [kRestPath; kCase; kHolder]).
    EnterRest_endpoint, EnterMethod_def *)
 Definition attr_before (k : N) : bool := mem k [kApp; kEndpoint; kRestPath; kMethod; kAlias; kUnion].
 (* ... after it, before the body: EnterTable -> EnterTable_def, EnterField -> EnterField_type, EnterEvent *)
-Definition attr_after (k : N) : bool := mem k [kType; kField; kEvent; kEnum; kParam].
+Definition attr_after (k : N) : bool := mem k [kType; kField; kEvent; kEnum; kParam; kSubscribe].
 (* ... after the body: ExitStatements *)
 Definition attr_last (k : N) : bool := negb (attr_before k) && negb (attr_after k).
 (* End := lastEnd on exit: ExitApp_decl, ExitTable, ExitSimple_endpoint *)
 Definition fix_end (k : N) : bool := mem k [kApp; kType; kEndpoint].
 (* popScope on a statement scope: the LAST statement of the scope gets End := lastEnd *)
-Definition is_scope (k : N) : bool := mem k [kEndpoint; kEvent; kMethod; kBlock; kCase].
-Definition is_stmt (k : N) : bool := mem k [kText; kPlain; kBlock; kOneOf; kDoc].
+Definition is_scope (k : N) : bool := mem k [kEndpoint; kEvent; kMethod; kBlock; kCase; kCollector; kSubscribe].
+Definition is_stmt (k : N) : bool := mem k [kText; kPlain; kBlock; kOneOf; kDoc; kCollStmt].
 (* the End of the context is the one sourceCtxHelper.get computes from the rule's stop token and nothing overwrites it
    later: no End := lastEnd on exit, not a statement (popScope may patch the last statement of a scope; the text
    statement replaces the end column) *)
